@@ -219,6 +219,30 @@ func scenario(k int) {
 	for i := 0; i < 1+r.Intn(10); i++ {
 		open()
 	}
+	// a bind whose commit step fails while a datagram for that very port arrives: the
+	// roll-back must leave the socket owning nothing
+	var ghost tcpip.Endpoint
+	ghostPl := []byte(fmt.Sprintf("ghost-%d", k))
+	if r.Chance(1, 3) {
+		gp := uint16(7000 + r.Intn(3))
+		if ep, e := w.s.NewEndpoint(udp.ProtocolNumber, ipv4.ProtocolNumber, &waiter.Queue{}); e == nil {
+			be := ep.Bind(tcpip.FullAddress{Port: gp}, func() *tcpip.Error {
+				var s4, d4 [4]byte
+				copy(s4[:], r19)
+				copy(d4[:], l11)
+				u := rfc.UDP{SrcPort: 5000, DstPort: gp, Payload: ghostPl}
+				ip := rfc.IPv4{TTL: 64, Proto: rfc.ProtoUDP, ID: 7, Src: s4, Dst: d4, Payload: u.Bytes4(s4, d4, true)}
+				w.links[1].Inject(ipv4.ProtocolNumber, ip.Bytes(true), "")
+				return tcpip.ErrPortInUse
+			})
+			if be != nil {
+				ghost = ep
+				tr("bind of a socket to port %d fails in its commit step while a datagram for that port arrives", gp)
+			} else {
+				ep.Close()
+			}
+		}
+	}
 	// some are closed again; an address may be removed
 	for _, s := range socks {
 		if r.Chance(1, 5) {
@@ -372,6 +396,16 @@ func scenario(k int) {
 		} else {
 			nOpen++
 		}
+	}
+	if ghost != nil {
+		// the socket whose bind failed is bound somewhere else now: it must be empty
+		if e := ghost.Bind(tcpip.FullAddress{Port: 7010}, nil); e == nil {
+			if v, _, e := ghost.Read(nil); e == nil {
+				viol("udp/failed-bind-kept-a-datagram", fmt.Sprintf("a socket whose bind to a port failed (commit step refused) later returned %q, a datagram that arrived for that port during the failed bind", v))
+			}
+			run.Count("failed_bind_sockets_checked", 1)
+		}
+		ghost.Close()
 	}
 	kinds := ""
 	for _, s := range socks {
